@@ -1,6 +1,7 @@
 package rig
 
 import (
+	"sync/atomic"
 	"bufio"
 	"bytes"
 	"context"
@@ -445,8 +446,18 @@ func (c *Client) WSWriteRaw(binary bool, data []byte) error {
 
 // openWT builds an in-memory WebTransport connection and hands its server side to the
 // engine the way OnWebTransportSession does after it has read the handshake message.
+var wtFragSizes = []int{0, 1, 3, 0, 1000, 2}
+var wtFragCounter atomic.Int64
+
 func (c *Client) openWT(upgrade bool) error {
 	cs, ss := fakenet.StreamPipe()
+	// the byte stream is delivered in pieces of at most n bytes in both directions (QUIC hands
+	// over whatever has arrived); n cycles through the list, 0 = unfragmented
+	if n := wtFragSizes[int(wtFragCounter.Add(1))%len(wtFragSizes)]; n > 0 {
+		cs.Conn.FragmentReads(n)
+		ss.Conn.FragmentReads(n)
+		c.W.Tap.Add(Event{Kind: "wt:fragmented", Sid: c.Sid, Str: fmt.Sprint(n)})
+	}
 	c.mu.Lock()
 	c.WTStream, c.WTServerStream = cs, ss
 	c.WT = webtrans.NewConn(nil, cs, false, 0, 0, nil, nil, nil)
